@@ -1059,6 +1059,7 @@ func first(a, _ []byte) []byte { return a }
 //@   captures root.pointer != nil
 //@   requires liveRef(root) && HeapOK_alpha() && LinkedLive() && leafT() == typeid(alphaLeafNode)
 //@   ensures[pure] frame()
+//@   yield_requires[within_bounds] !lexLess(mkslice(as(alphaLeafNode, leaf).key.obj, as(alphaLeafNode, leaf).key.idx, as(alphaLeafNode, leaf).len), start) && !lexLess(end, mkslice(as(alphaLeafNode, leaf).key.obj, as(alphaLeafNode, leaf).key.idx, as(alphaLeafNode, leaf).len))
 //@   loop 1 (q)
 //@     invariant stacksOK(q, depths)
 //@   loop 2 (i)
@@ -1083,6 +1084,7 @@ func first(a, _ []byte) []byte { return a }
 //@   captures root.pointer != nil
 //@   requires liveRef(root) && HeapOK_$KIND() && LinkedLive() && leafT() == typeid($KINDLeafNode)
 //@   ensures[pure] frame()
+//@   yield_requires[within_bounds] !lexLess(mkslice(as(unsignedLeafNode, leaf).key.obj, as(unsignedLeafNode, leaf).key.idx, as(unsignedLeafNode, leaf).len), start) && !lexLess(end, mkslice(as(unsignedLeafNode, leaf).key.obj, as(unsignedLeafNode, leaf).key.idx, as(unsignedLeafNode, leaf).len))
 //@   loop 1 (q)
 //@     invariant stacksOK(q, depths)
 //@   loop 2 (i)
@@ -1103,6 +1105,7 @@ func first(a, _ []byte) []byte { return a }
 //@   captures root.pointer != nil
 //@   requires liveRef(root) && HeapOK_compound() && LinkedLive() && leafT() == typeid(compoundLeafNode)
 //@   ensures[pure] frame()
+//@   yield_requires[within_bounds] !lexLess(mkslice(as(compoundLeafNode, leaf).key.obj, as(compoundLeafNode, leaf).key.idx, as(compoundLeafNode, leaf).len), start) && !lexLess(end, mkslice(as(compoundLeafNode, leaf).key.obj, as(compoundLeafNode, leaf).key.idx, as(compoundLeafNode, leaf).len))
 //@   loop 1 (q)
 //@     invariant stacksOK(q, depths)
 //@   loop 2 (i)
@@ -1124,6 +1127,7 @@ func first(a, _ []byte) []byte { return a }
 //@   captures implies(start.obj != nil, atype(start.obj) == 1000) && implies(end.obj != nil, atype(end.obj) == 1000) && implies(search.obj != nil, atype(search.obj) == 1000)
 //@   requires liveRef(root) && HeapOK_collation() && LinkedLive() && leafT() == typeid(collateLeafNode)
 //@   ensures[pure] frame()
+//@   yield_requires[within_bounds] !lexLess(mkslice(as(collateLeafNode, leaf).key.obj, as(collateLeafNode, leaf).key.idx, as(collateLeafNode, leaf).keyLen), start) && !lexLess(end, mkslice(as(collateLeafNode, leaf).key.obj, as(collateLeafNode, leaf).key.idx, as(collateLeafNode, leaf).keyLen))
 //@   loop 1 (q)
 //@     invariant stacksOK(q, depths)
 //@   loop 2 (i)
